@@ -10,7 +10,7 @@
      frame_rel s s'     same current index, same number of tracks, every other track identical
      globals_eq a b     a and b agree on everything but the track list and the current index *)
 From Sakura.Model Require Import Base Cursor Length Event Song Token LoopMachine LexCore RunCore.
-From Sakura.Proofs Require Import BlockP TrackIndepP TrackBlocksP.
+From Sakura.Proofs Require Import BlockP TrackIndepP TrackBlocksP TrackSwitchP.
 Open Scope Z_scope.
 
 (* change_cur_track(n): a pending octave-once is first settled (Song.settle_octave_once: undone on the OLD current
@@ -207,6 +207,248 @@ Example C12_example_blocks :
     length (tr_events (nth 1 (s_tracks sA) dtrk)) = 4%nat /\ length (tr_events (nth 4 (s_tracks sB) dtrk)) = 5%nat.
 Proof. exact blocks_example. Qed.
 
+(* ================================================================================================== *)
+(* WHAT STANDS BETWEEN TWO BLOCKS OF ONE TRACK - a switch to other tracks and back, or nothing - CHANGES NOTHING ON THAT
+   TRACK (proofs/TrackSwitchP.v).
+     with_tracks_upto s j   s with the tracks missing up to number j appended, each the default track of its own number
+                            (C12_default_channel); s itself when track j exists
+   One step: `TR(j) TR(i)` executed while track i is current and no octave-once mark is pending gives back the SAME song -
+   every field of every existing track (events, open ties `tr_tie_notes`, reservations `tr_rsv`, time pointer, length,
+   octave ...), every song-global register, the current-track index - except that the tracks up to j exist afterwards.
+   With an octave-once mark pending the switch settles it (C12_settle_octave_once) and that is the ONLY other effect
+   (C12_switch_and_back_pending). *)
+Theorem C12_switch_and_back : forall (ec : list tok -> res song -> res song) (s : song) (j : nat),
+  cur_ok s -> (s_cur s <= 999)%nat -> (j <= 999)%nat -> s_octave_once s = 0 ->
+  let s' := with_tracks_upto s j in
+  fold_steps ec [TTrack (Z.of_nat j); TTrack (Z.of_nat (s_cur s))] (Ok s) = Ok s' /\
+  (forall d steps, s_break_flag s = 0 -> (2 < steps)%nat ->
+     exec_f (S d) steps [TTrack (Z.of_nat j); TTrack (Z.of_nat (s_cur s))] (Ok s) = Ok s') /\
+  s' = s_set_tracks s (s_tracks s ++ map (default_track (s_timebase s)) (seq (length (s_tracks s)) (S j - length (s_tracks s)))) /\
+  s_cur s' = s_cur s /\ cur_track s' = cur_track s /\ s_set_tracks s' [] = s_set_tracks s [] /\
+  (forall k, (k < length (s_tracks s))%nat -> nth k (s_tracks s') dtrk = nth k (s_tracks s) dtrk) /\
+  length (s_tracks s') = Nat.max (length (s_tracks s)) (S j) /\
+  (forall k, (length (s_tracks s) <= k < length (s_tracks s'))%nat ->
+     nth k (s_tracks s') dtrk = track_new (s_timebase s) (Z.of_nat k - 1)) /\
+  ((j < length (s_tracks s))%nat -> s' = s).
+Proof. exact switch_and_back_law. Qed.
+
+Theorem C12_switch_and_back_pending : forall (ec : list tok -> res song -> res song) (s : song) (j : nat),
+  cur_ok s -> (s_cur s <= 999)%nat -> (j <= 999)%nat ->
+  fold_steps ec [TTrack (Z.of_nat j); TTrack (Z.of_nat (s_cur s))] (Ok s) = Ok (with_tracks_upto (settle_octave_once s) j).
+Proof. exact switch_and_back_gen. Qed.
+
+(* Programs, blocks as for C12_commute_blocks (loops, Sub, tuplets; triple_fuel_ok: the step bounds of the three blocks plus
+   the three track tokens stay below `steps`): "TR(i) A TR(j) B TR(i) C" and "TR(i) A C TR(j) B" build the same tracks and the
+   same global registers (up to the dead ones); track i is what `A C` alone makes of it (third conjunct), track j what B
+   alone makes of it.  Whatever A left open on track i - a tie (`c&`), reservations, a chord-free state of any kind - C finds it.
+   Side conditions: A leaves NO OCTAVE-ONCE MARK pending (s_octave_once sA = 0; C12_group_needs_no_pending_once shows why);
+   C and B, run from the state A left, leave the song-global registers as they found them up to the dead ones (as in
+   C12_commute_blocks; A itself may change them).  Tracks i and j exist (tracks are created by the first TR that names a
+   higher number, C12_default_channel_any_order: the order of creation does not matter). *)
+Theorem C12_group_blocks : forall (d steps : nat) (A B C : list tok) (s : song) (i j : nat) (sA sB sC : song),
+  block_ok (S d) steps A = true -> block_ok (S d) steps B = true -> block_ok (S d) steps C = true ->
+  triple_fuel_ok steps A B C = true -> i <> j ->
+  (i < length (s_tracks s))%nat -> (j < length (s_tracks s))%nat -> (i <= 999)%nat -> (j <= 999)%nat ->
+  s_octave_once s = 0 -> s_break_flag s = 0 ->
+  exec_f (S d) steps A (Ok (s_set_cur s i)) = Ok sA -> s_octave_once sA = 0 ->
+  exec_f (S d) steps C (Ok sA) = Ok sC -> globals_eq (gnorm sC) (gnorm sA) ->
+  exec_f (S d) steps B (Ok (s_set_cur sA j)) = Ok sB -> globals_eq (gnorm sB) (gnorm sA) ->
+  exists r1 r2,
+    exec_f (S d) steps (TTrack (Z.of_nat i) :: A ++ TTrack (Z.of_nat j) :: B ++ TTrack (Z.of_nat i) :: C) (Ok s) = Ok r1 /\
+    exec_f (S d) steps (TTrack (Z.of_nat i) :: (A ++ C) ++ TTrack (Z.of_nat j) :: B) (Ok s) = Ok r2 /\
+    exec_f (S d) steps (A ++ C) (Ok (s_set_cur s i)) = Ok sC /\
+    s_tracks r1 = s_tracks r2 /\ globals_eq (gnorm r1) (gnorm r2) /\ s_cur r1 = i /\ s_cur r2 = j /\
+    s_tracks r1 = upd_nth j (fun _ => nth j (s_tracks sB) dtrk) (upd_nth i (fun _ => nth i (s_tracks sC) dtrk) (s_tracks s)).
+Proof. exact group_blocks_exec. Qed.
+
+(* an OPEN TIE across the gap: A = `c&` on track 1, B = `e` on track 2, C = `c d` on track 1.  After A the note waits in
+   tr_tie_notes; both programs give ONE c of 182 ticks (96 + the gate 86 of the second c) followed by d, and the tie list is empty *)
+Definition sw_n (b slur : Z) : tok := TNote b 0 0 [] 0 (-1) ISIZE_MIN (-1) slur.
+Definition sw_A : list tok := [sw_n 0 1].
+Definition sw_B : list tok := [sw_n 4 0].
+Definition sw_C : list tok := [sw_n 0 0; sw_n 2 0].
+Definition sw_s : song := change_cur_track song_new 5.
+Definition sw_view (r : res song) : list (Z * list (Z * Z * Z) * Z) :=
+  match r with
+  | Ok s => map (fun t => (tr_timepos t, map (fun e => (e_time e, e_v1 e, e_v2 e)) (tr_events t), Z.of_nat (length (tr_tie_notes t)))) (s_tracks s)
+  | _ => []
+  end.
+Example C12_example_open_tie :
+  block_ok 2 100 sw_A = true /\ block_ok 2 100 sw_B = true /\ block_ok 2 100 sw_C = true /\ triple_fuel_ok 100 sw_A sw_B sw_C = true /\
+  sw_view (exec_f 2 100 (TTrack 1 :: sw_A) (Ok sw_s)) = [(0, [], 0); (96, [], 1); (0, [], 0); (0, [], 0); (0, [], 0); (0, [], 0)] /\
+  exec_f 2 100 (TTrack 1 :: sw_A ++ TTrack 2 :: sw_B ++ TTrack 1 :: sw_C) (Ok sw_s)
+    = exec_f 2 100 (TTrack 2 :: sw_B ++ TTrack 1 :: sw_A ++ sw_C) (Ok sw_s) /\
+  sw_view (exec_f 2 100 (TTrack 1 :: sw_A ++ TTrack 2 :: sw_B ++ TTrack 1 :: sw_C) (Ok sw_s))
+    = [(0, [], 0); (288, [(0, 60, 182); (192, 62, 86)], 0); (96, [(0, 64, 86)], 0); (0, [], 0); (0, [], 0); (0, [], 0)] /\
+  sw_view (exec_f 2 100 (TTrack 1 :: (sw_A ++ sw_C) ++ TTrack 2 :: sw_B) (Ok sw_s))
+    = [(0, [], 0); (288, [(0, 60, 182); (192, 62, 86)], 0); (96, [(0, 64, 86)], 0); (0, [], 0); (0, [], 0); (0, [], 0)] /\
+  exists sA sB sC,
+    exec_f 2 100 sw_A (Ok (s_set_cur sw_s 1)) = Ok sA /\ s_octave_once sA = 0 /\ length (tr_tie_notes (cur_track sA)) = 1%nat /\
+    exec_f 2 100 sw_C (Ok sA) = Ok sC /\ globals_eq (gnorm sC) (gnorm sA) /\
+    exec_f 2 100 sw_B (Ok (s_set_cur sA 2)) = Ok sB /\ globals_eq (gnorm sB) (gnorm sA).
+Proof.
+  split; [vm_compute; reflexivity|]. split; [vm_compute; reflexivity|]. split; [vm_compute; reflexivity|].
+  split; [vm_compute; reflexivity|]. split; [vm_compute; reflexivity|]. split; [vm_compute; reflexivity|].
+  split; [vm_compute; reflexivity|]. split; [vm_compute; reflexivity|].
+  eexists. eexists. eexists. split; [vm_compute; reflexivity|]. split; [vm_compute; reflexivity|].
+  split; [vm_compute; reflexivity|]. split; [vm_compute; reflexivity|]. split; [vm_compute; reflexivity|].
+  split; vm_compute; reflexivity.
+Qed.
+
+(* why A must not end with an octave-once mark: A = "c `" - the switch settles the mark, so the c of C sounds at 60 in
+   "TR(1) c ` TR(2) e TR(1) c d" and at 72 in "TR(1) c ` c d TR(2) e" (the implementation agrees, tools/one_core.py) *)
+Definition sw_A1 : list tok := [sw_n 0 0; TOctaveOnce 1].
+Example C12_group_needs_no_pending_once :
+  block_ok 2 100 sw_A1 = true /\ triple_fuel_ok 100 sw_A1 sw_B sw_C = true /\
+  sw_view (exec_f 2 100 (TTrack 1 :: sw_A1 ++ TTrack 2 :: sw_B ++ TTrack 1 :: sw_C) (Ok sw_s))
+    = [(0, [], 0); (288, [(0, 60, 86); (96, 60, 86); (192, 62, 86)], 0); (96, [(0, 64, 86)], 0); (0, [], 0); (0, [], 0); (0, [], 0)] /\
+  sw_view (exec_f 2 100 (TTrack 1 :: (sw_A1 ++ sw_C) ++ TTrack 2 :: sw_B) (Ok sw_s))
+    = [(0, [], 0); (288, [(0, 60, 86); (96, 72, 86); (192, 62, 86)], 0); (96, [(0, 64, 86)], 0); (0, [], 0); (0, [], 0); (0, [], 0)] /\
+  exists sA, exec_f 2 100 sw_A1 (Ok (s_set_cur sw_s 1)) = Ok sA /\ s_octave_once sA = 1.
+Proof.
+  split; [vm_compute; reflexivity|]. split; [vm_compute; reflexivity|]. split; [vm_compute; reflexivity|].
+  split; [vm_compute; reflexivity|]. eexists. split; vm_compute; reflexivity.
+Qed.
+
+(* a switch to a track that does not exist yet, and back: tracks 1..3 are created on their default channels, track 0 and
+   the globals are untouched; with a mark pending only the octave of track 0 is taken back *)
+Example C12_example_switch_and_back :
+  fold_steps (exec_f 1 10) [TTrack 3; TTrack 0] (Ok song_new) = Ok (with_tracks_upto song_new 3) /\
+  map tr_channel (s_tracks (with_tracks_upto song_new 3)) = [0; 0; 1; 2] /\ with_tracks_upto sw_s 3 = sw_s /\
+  exists s1, fold_steps (exec_f 1 10) [sw_n 0 1; TOctaveOnce 1] (Ok song_new) = Ok s1 /\ s_octave_once s1 = 1 /\
+    fold_steps (exec_f 1 10) [TTrack 3; TTrack 0] (Ok s1) = Ok (with_tracks_upto (s_set_octave_once (upd_cur s1 (fun t => tr_set_octave t 5)) 0) 3) /\
+    tr_octave (cur_track s1) = 6 /\ length (tr_tie_notes (cur_track s1)) = 1%nat.
+Proof.
+  split; [vm_compute; reflexivity|]. split; [vm_compute; reflexivity|]. split; [vm_compute; reflexivity|].
+  eexists. split; [vm_compute; reflexivity|]. split; [vm_compute; reflexivity|]. split; [vm_compute; reflexivity|].
+  split; vm_compute; reflexivity.
+Qed.
+
+(* ================================================================================================== *)
+(* ANY NUMBER OF BLOCKS (proofs/TrackSwitchP.v).
+     tprog                 a program: a list of (track number, block)
+     render P              its tokens: TR(t1) b1 TR(t2) b2 ...
+     blocks_of t P         the blocks addressed to track t, in their order
+     grouped P             all blocks of a track concatenated under ONE track command, tracks in the order of their first
+                           appearance - the `grouped` rendering of tools/props/c12.py
+     prog_wf d steps n P   the tracks of P are below n (they exist) and below 1000, every block is a block (block_ok), the
+                           state-free step bound of the whole text is below `steps`; prog_wf_b computes it
+     nrun d steps bs s0 sf the blocks bs run one after the other from s0 to sf, each leaving the song-global registers as
+                           it found them up to the dead ones (the side condition of C12_commute_blocks, for every block;
+                           in particular no block leaves an octave-once mark pending)
+   C12_program_tracks: EVERY TRACK IS WHAT ITS OWN BLOCKS ALONE MAKE OF IT - `alone t` is the run of the blocks of track t,
+   with nothing in between, from the start state with t current; the run of the whole program gives track t of `alone t`, for
+   every t, whatever stands between two blocks of t.  Hence every rendering with the same blocks per track builds the same
+   tracks: any interleaving that keeps the order of the blocks of each track (C12_permute_program: the n-block form of
+   C12_commute_blocks), and all blocks of a track under one track command (C12_group_program). *)
+Theorem C12_program_tracks : forall (d steps : nat) (P : tprog) (s : song) (alone : nat -> song),
+  prog_wf (S d) steps (length (s_tracks s)) P -> s_octave_once s = 0 -> s_break_flag s = 0 ->
+  (forall t, (t < length (s_tracks s))%nat -> nrun (S d) steps (blocks_of t P) (s_set_cur s t) (alone t)) ->
+  exists r, exec_f (S d) steps (render P) (Ok s) = Ok r /\
+    length (s_tracks r) = length (s_tracks s) /\ globals_eq (gnorm r) (gnorm s) /\
+    s_cur r = last (map fst P) (s_cur s) /\
+    (forall t, (t < length (s_tracks s))%nat -> nth t (s_tracks r) dtrk = nth t (s_tracks (alone t)) dtrk).
+Proof. exact program_tracks. Qed.
+
+Theorem C12_permute_program : forall (d steps : nat) (P Q : tprog) (s : song) (alone : nat -> song),
+  prog_wf (S d) steps (length (s_tracks s)) P -> prog_wf (S d) steps (length (s_tracks s)) Q ->
+  (forall t, blocks_of t Q = blocks_of t P) ->
+  s_octave_once s = 0 -> s_break_flag s = 0 ->
+  (forall t, (t < length (s_tracks s))%nat -> nrun (S d) steps (blocks_of t P) (s_set_cur s t) (alone t)) ->
+  exists r1 r2, exec_f (S d) steps (render P) (Ok s) = Ok r1 /\ exec_f (S d) steps (render Q) (Ok s) = Ok r2 /\
+    s_tracks r1 = s_tracks r2 /\ globals_eq (gnorm r1) (gnorm r2) /\
+    length (s_tracks r1) = length (s_tracks s) /\
+    (forall t, (t < length (s_tracks s))%nat -> nth t (s_tracks r1) dtrk = nth t (s_tracks (alone t)) dtrk).
+Proof. exact program_permute. Qed.
+
+Theorem C12_group_program : forall (d steps : nat) (P : tprog) (s : song) (alone : nat -> song),
+  prog_wf (S d) steps (length (s_tracks s)) P -> prog_wf (S d) steps (length (s_tracks s)) (grouped P) ->
+  s_octave_once s = 0 -> s_break_flag s = 0 ->
+  (forall t, (t < length (s_tracks s))%nat -> nrun (S d) steps (blocks_of t P) (s_set_cur s t) (alone t)) ->
+  exists r1 r2, exec_f (S d) steps (render P) (Ok s) = Ok r1 /\ exec_f (S d) steps (render (grouped P)) (Ok s) = Ok r2 /\
+    s_tracks r1 = s_tracks r2 /\ globals_eq (gnorm r1) (gnorm r2) /\
+    length (s_tracks r1) = length (s_tracks s) /\
+    (forall t, (t < length (s_tracks s))%nat -> nth t (s_tracks r1) dtrk = nth t (s_tracks (alone t)) dtrk).
+Proof. exact program_grouped. Qed.
+
+Theorem C12_prog_wf_computed : forall (d steps n : nat) (P : tprog), prog_wf_b d steps n P = true -> prog_wf d steps n P.
+Proof. exact prog_wf_b_ok. Qed.
+
+(* non-vacuity: six blocks on tracks 1, 2, 4 of a six-track song; track 1 gets `c&` | `c d&` | `d Sub{a}` - a tie left open
+   at the end of its first AND of its second block, completed in the next one; track 4 a loop *)
+Definition sw_P : tprog :=
+  [(1%nat, [sw_n 0 1]); (2%nat, [sw_n 4 0; TOctave 6]); (1%nat, [sw_n 0 0; sw_n 2 1]);
+   (4%nat, [TLoopBegin 2; sw_n 5 0; TLoopEnd]); (2%nat, [sw_n 7 0]); (1%nat, [sw_n 2 0; TSub [sw_n 9 0]])].
+Definition sw_alone (t : nat) : song :=
+  match run_blocks 2 100 (blocks_of t sw_P) (Ok (s_set_cur sw_s t)) with Ok x => x | _ => sw_s end.
+Example C12_example_program :
+  prog_wf_b 2 100 6 sw_P = true /\ prog_wf_b 2 100 6 (grouped sw_P) = true /\ s_octave_once sw_s = 0 /\ s_break_flag sw_s = 0 /\
+  length (s_tracks sw_s) = 6%nat /\
+  (forall t, (t < 6)%nat -> nrun 2 100 (blocks_of t sw_P) (s_set_cur sw_s t) (sw_alone t)) /\
+  map fst (grouped sw_P) = [1; 2; 4]%nat /\ map (fun tb => length (snd tb)) (grouped sw_P) = [5; 3; 3]%nat /\
+  sw_view (exec_f 2 100 (render sw_P) (Ok sw_s))
+    = [(0, [], 0); (384, [(0, 60, 182); (192, 62, 182); (384, 69, 86)], 0); (192, [(0, 64, 86); (96, 79, 86)], 0);
+       (0, [], 0); (192, [(0, 65, 86); (96, 65, 86)], 0); (0, [], 0)] /\
+  sw_view (exec_f 2 100 (render (grouped sw_P)) (Ok sw_s)) = sw_view (exec_f 2 100 (render sw_P) (Ok sw_s)).
+Proof.
+  split; [vm_compute; reflexivity|]. split; [vm_compute; reflexivity|]. split; [reflexivity|]. split; [reflexivity|].
+  split; [reflexivity|]. split.
+  { intros t Ht. destruct t as [|[|[|[|[|[|t]]]]]]; try lia; vm_compute;
+      repeat (first [apply nrun_nil | eapply nrun_cons; [vm_compute; reflexivity|vm_compute; reflexivity|]]). }
+  split; [vm_compute; reflexivity|]. split; [vm_compute; reflexivity|]. split; vm_compute; reflexivity.
+Qed.
+
+(* ================================================================================================== *)
+(* TRACKS THAT DO NOT EXIST YET.  The theorems above speak about existing tracks.  A track command creates the missing tracks
+   up to its number, each the default track of its own number, whatever the order of first use: running a program whose track
+   numbers are at most m (prog_upto) from s, or from s with the tracks up to m created beforehand, gives the same result up to
+   those tracks (C12_precreate; errors are the same errors) - and the very same song when the program names track m
+   (C12_create_named).  So the order in which tracks are created does not matter, and C12_group_program holds from a song
+   that lacks the tracks (C12_group_program_create: `alone t` is then the run of the blocks of t from the song with the
+   tracks created; m = the highest track number of the program). *)
+Theorem C12_precreate : forall (d steps m : nat) (P : tprog) (s : song), prog_upto (S d) steps m P -> cur_ok s ->
+  exec_f (S d) steps (render P) (Ok (with_tracks_upto s m)) = wtu_res m (exec_f (S d) steps (render P) (Ok s)).
+Proof. exact program_precreate. Qed.
+
+Theorem C12_create_named : forall (d steps m : nat) (P : tprog) (s r : song),
+  prog_upto (S d) steps m P -> cur_ok s -> s_break_flag s = 0 -> In m (map fst P) ->
+  exec_f (S d) steps (render P) (Ok (with_tracks_upto s m)) = Ok r -> exec_f (S d) steps (render P) (Ok s) = Ok r.
+Proof. exact program_create_named. Qed.
+
+Theorem C12_group_program_create : forall (d steps : nat) (P : tprog) (s : song) (m : nat) (alone : nat -> song),
+  let s1 := with_tracks_upto s m in
+  cur_ok s -> (length (s_tracks s) <= S m)%nat -> In m (map fst P) ->
+  prog_wf (S d) steps (S m) P -> prog_wf (S d) steps (S m) (grouped P) ->
+  s_octave_once s = 0 -> s_break_flag s = 0 ->
+  (forall t, (t <= m)%nat -> nrun (S d) steps (blocks_of t P) (s_set_cur s1 t) (alone t)) ->
+  exists r1 r2, exec_f (S d) steps (render P) (Ok s) = Ok r1 /\ exec_f (S d) steps (render (grouped P)) (Ok s) = Ok r2 /\
+    s_tracks r1 = s_tracks r2 /\ globals_eq (gnorm r1) (gnorm r2) /\
+    length (s_tracks r1) = S m /\
+    (forall t, (t <= m)%nat -> nth t (s_tracks r1) dtrk = nth t (s_tracks (alone t)) dtrk).
+Proof. exact program_grouped_create. Qed.
+
+(* non-vacuity: the program of C12_example_program from Song::new() (only track 0 exists), m = 4:
+   "TR(1) c& TR(2) e o6 TR(1) c d& TR(4) [2 f] TR(2) g TR(1) d Sub{a}" and "TR(1) c& c d& d Sub{a} TR(2) e o6 g TR(4) [2 f]"
+   (the implementation gives the same bytes for both, tools/one_core.py) *)
+Definition sw_alone0 (t : nat) : song :=
+  match run_blocks 2 100 (blocks_of t sw_P) (Ok (s_set_cur (with_tracks_upto song_new 4) t)) with Ok x => x | _ => song_new end.
+Example C12_example_program_create :
+  cur_ok song_new /\ length (s_tracks song_new) = 1%nat /\ In 4%nat (map fst sw_P) /\
+  prog_wf_b 2 100 5 sw_P = true /\ prog_wf_b 2 100 5 (grouped sw_P) = true /\
+  (forall t, (t <= 4)%nat -> nrun 2 100 (blocks_of t sw_P) (s_set_cur (with_tracks_upto song_new 4) t) (sw_alone0 t)) /\
+  sw_view (exec_f 2 100 (render sw_P) (Ok song_new))
+    = [(0, [], 0); (384, [(0, 60, 182); (192, 62, 182); (384, 69, 86)], 0); (192, [(0, 64, 86); (96, 79, 86)], 0);
+       (0, [], 0); (192, [(0, 65, 86); (96, 65, 86)], 0)] /\
+  exec_f 2 100 (render (grouped sw_P)) (Ok song_new) = exec_f 2 100 (render [(1%nat, concat (blocks_of 1 sw_P)); (2%nat, concat (blocks_of 2 sw_P)); (4%nat, concat (blocks_of 4 sw_P))]) (Ok song_new) /\
+  sw_view (exec_f 2 100 (render (grouped sw_P)) (Ok song_new)) = sw_view (exec_f 2 100 (render sw_P) (Ok song_new)).
+Proof.
+  split; [vm_compute; lia|]. split; [reflexivity|]. split; [vm_compute; tauto|].
+  split; [vm_compute; reflexivity|]. split; [vm_compute; reflexivity|]. split.
+  { intros t Ht. destruct t as [|[|[|[|[|t]]]]]; try lia; vm_compute;
+      repeat (first [apply nrun_nil | eapply nrun_cons; [vm_compute; reflexivity|vm_compute; reflexivity|]]). }
+  split; [vm_compute; reflexivity|]. split; vm_compute; reflexivity.
+Qed.
+
 Print Assumptions C12_default_channel.
 Print Assumptions C12_settle_octave_once.
 Print Assumptions C12_default_channel_any_order.
@@ -221,3 +463,13 @@ Print Assumptions C12_harmony_time_dead.
 Print Assumptions C12_commute_partial.
 Print Assumptions C12_block_local.
 Print Assumptions C12_commute_blocks.
+Print Assumptions C12_switch_and_back.
+Print Assumptions C12_switch_and_back_pending.
+Print Assumptions C12_group_blocks.
+Print Assumptions C12_program_tracks.
+Print Assumptions C12_permute_program.
+Print Assumptions C12_group_program.
+Print Assumptions C12_prog_wf_computed.
+Print Assumptions C12_precreate.
+Print Assumptions C12_create_named.
+Print Assumptions C12_group_program_create.
